@@ -1,9 +1,110 @@
-(* C19 — macro expansions have their specified Michelson meaning. *)
+(* C19 — macro expansions have their specified Michelson meaning.
+   Model: Michelson/Macros.v.  [expand] mirrors pytezos.michelson.macros.expand_macro (code = Micheline nodes);
+   [ref_*] are the definitions of the Michelson reference; [eval ext] is the reference evaluator of the
+   fragment, parameterised by an arbitrary meaning [ext] of every primitive outside the fragment, so the
+   code arguments of IF…/DII+P/MAP_C[AD]+R are arbitrary Micheline.
+   [expands_to_ref ext name annots args ref]: the model accepts the call and the expansion has, on EVERY
+   stack (well-shaped or not), the same outcome (stack / FAILWITH value / error) as the reference code. *)
 From Coq Require Import List ZArith Bool String.
+From Coq.Strings Require Import Byte.
 From PV Require Import Base.Bytes Codec.Micheline Michelson.Macros Proofs.Macros_proofs.
 Import ListNotations.
 
-Theorem C19_fail : forall ext (annots : list bytes) s,
-  expand "FAIL" [] [] = Some ref_fail /\ eval ext (NSeq ref_fail) s = RFailed VUnit.
-Proof. exact fail_meaning. Qed.
-Print Assumptions C19_fail.
+(* CMP{op}, IF{op}, IFCMP{op}, ASSERT_{op}, ASSERT_CMP{op} for the six comparison operators,
+   with any annotations and any two branches *)
+Theorem C19_compare_macros : forall ext nm t, In (nm, t) cmp_ops -> forall (annots : list bytes) (bt bf : node),
+  expands_to_ref ext ("CMP" ++ nm)%string annots [] (ref_cmp t) /\
+  expands_to_ref ext ("IF" ++ nm)%string annots [bt; bf] (ref_if t bt bf) /\
+  expands_to_ref ext ("IFCMP" ++ nm)%string annots [bt; bf] (ref_ifcmp t bt bf) /\
+  expands_to_ref ext ("ASSERT_" ++ nm)%string [] [] (ref_assert_op t) /\
+  expands_to_ref ext ("ASSERT_CMP" ++ nm)%string [] [] (ref_assert_cmp t).
+Proof. exact cmp_macros. Qed.
+Print Assumptions C19_compare_macros.
+
+(* FAIL, ASSERT, ASSERT_NONE/SOME/LEFT/RIGHT, IF_SOME, IF_RIGHT *)
+Theorem C19_fixed_macros : forall ext (annots : list bytes) (bt bf : node),
+  expands_to_ref ext "FAIL" [] [] ref_fail /\
+  expands_to_ref ext "ASSERT" [] [] ref_assert /\
+  expands_to_ref ext "ASSERT_NONE" [] [] ref_assert_none /\
+  expands_to_ref ext "ASSERT_SOME" annots [] ref_assert_some /\
+  expands_to_ref ext "ASSERT_LEFT" annots [] ref_assert_left /\
+  expands_to_ref ext "ASSERT_RIGHT" annots [] ref_assert_right /\
+  expands_to_ref ext "IF_SOME" [] [bt; bf] (ref_if_some bt bf) /\
+  expands_to_ref ext "IF_RIGHT" [] [bt; bf] (ref_if_right bt bf).
+Proof. exact fixed_macros. Qed.
+Print Assumptions C19_fixed_macros.
+
+(* D I^n P for every n >= 2: DIP (DIP (… code)) *)
+Theorem C19_dixp : forall ext n code,
+  expands_to_ref ext (dixp_name (S (S n))) [] [code] [ref_dixp (S (S n)) code].
+Proof. exact dixp_macro. Qed.
+Print Assumptions C19_dixp.
+
+(* D U^n P for every n >= 2: DIP (DU^(n-1)P) ; SWAP, i.e. a copy of the n-th element on top *)
+Theorem C19_duxp : forall ext n (annots : list bytes),
+  expands_to_ref ext (duxp_name (S (S n))) annots [] (ref_duxp (S (S n))) /\
+  forall s, eval ext (NSeq (ref_duxp (S (S n)))) s = dup_n (S n) s.
+Proof. exact duxp_macro. Qed.
+Print Assumptions C19_duxp.
+
+(* every PAIR tree macro P…R other than PAIR itself (all tree shapes, by induction on the tree):
+   same outcome as the recursive reference definition, which is: consume the leaves from the top of the
+   stack left to right and push the tree-shaped pair ([pair_result]); error when the stack is too short *)
+Theorem C19_pair_tree : forall ext l r (annots : list bytes), l <> L \/ r <> L ->
+  expands_to_ref ext (pair_name (N l r)) annots [] (ref_pair (N l r)) /\
+  forall s, eval ext (NSeq (ref_pair (N l r))) s = pair_result (N l r) s.
+Proof. exact pair_macro. Qed.
+Print Assumptions C19_pair_tree.
+
+Theorem C19_unpair_tree : forall ext l r (annots : list bytes), l <> L \/ r <> L ->
+  expands_to_ref ext (unpair_name (N l r)) annots [] (ref_unpair (N l r)) /\
+  forall s, eval ext (NSeq (ref_unpair (N l r))) s = unpair_result (N l r) s.
+Proof. exact unpair_macro. Qed.
+Print Assumptions C19_unpair_tree.
+
+(* each UNPAIR tree macro undoes the matching PAIR tree macro (and conversely), whatever the annotations *)
+Theorem C19_unpair_inverts_pair : forall ext l r (a1 a2 : list bytes), l <> L \/ r <> L ->
+  exists pc uc, expand (pair_name (N l r)) a1 [] = Some pc /\ expand (unpair_name (N l r)) a2 [] = Some uc /\
+    forall s s1, (eval ext (NSeq pc) s = ROk s1 -> eval ext (NSeq uc) s1 = ROk s) /\
+                 (eval ext (NSeq uc) s = ROk s1 -> eval ext (NSeq pc) s1 = ROk s).
+Proof. exact unpair_pair_inverse. Qed.
+Print Assumptions C19_unpair_inverts_pair.
+
+(* C[AD]+R for every path of length >= 2 *)
+Theorem C19_cxr : forall ext a b path (annots : list bytes),
+  expands_to_ref ext (cxr_name (a :: b :: path)) annots [] (ref_cxr (a :: b :: path)) /\
+  forall v s, eval ext (NSeq (ref_cxr (a :: b :: path))) (v :: s) =
+              match access (a :: b :: path) v with Some x => ROk (x :: s) | None => RErr end.
+Proof. exact cxr_macro. Qed.
+Print Assumptions C19_cxr.
+
+(* SET_C[AD]+R for every non-empty path (pytezos expands SET_CAR/SET_CDR to SWAP; UPDATE 1/2) *)
+Theorem C19_set_cxr : forall ext a path (annots : list bytes),
+  expands_to_ref ext (set_cxr_name (a :: path)) annots [] (ref_set_cxr (a :: path)) /\
+  forall v x s, eval ext (NSeq (ref_set_cxr (a :: path))) (v :: x :: s) =
+                match set_path (a :: path) v x with Some v' => ROk (v' :: s) | None => RErr end.
+Proof. exact set_cxr_macro. Qed.
+Print Assumptions C19_set_cxr.
+
+(* MAP_C[AD]+R code for every non-empty path and arbitrary code (at most one field annotation, as
+   expand_macro itself demands) *)
+Theorem C19_map_cxr : forall ext a path (annots : list bytes) code,
+  List.length (field_annots annots) <= 1 ->
+  expands_to_ref ext (map_cxr_name (a :: path)) annots [code] (ref_map_cxr (a :: path) code).
+Proof. exact map_cxr_macro. Qed.
+Print Assumptions C19_map_cxr.
+
+(* non-vacuity / sanity *)
+Example C19_ex_names :
+  pair_name (N (N L L) (N L L)) = "PPAIPAIR"%string /\ unpair_name (N L (N L L)) = "UNPAPAIR"%string /\
+  cxr_name [true; false; true] = "CADAR"%string /\ dixp_name 3 = "DIIIP"%string /\
+  map_cxr_name [false; true] = "MAP_CDAR"%string.
+Proof. repeat split. Qed.
+
+Example C19_ex_papair :
+  run_code (match expand "PAPAIR" [] [] with Some c => c | None => [] end) [VInt 3; VInt 2; VInt 1]
+  = ROk [VPair (VInt 3) (VPair (VInt 2) (VInt 1))].
+Proof. vm_compute. reflexivity. Qed.
+
+Example C19_ex_hyp : (N L L <> L \/ L <> L) /\ In ("NEQ"%string, T_NEQ) cmp_ops /\ List.length (field_annots [[x25; x61]]) <= 1.
+Proof. split; [left; discriminate|]. split; [simpl; tauto | simpl; auto]. Qed.
